@@ -50,11 +50,12 @@ Definition passes_through (o : op) : bool :=
   end.
 
 (* what the host has executed after a host-first method, whatever the overlay says
-   (Mknod: unix.Mknod, and os.WriteFile of an empty file when that fails) *)
+   (Mknod: unix.Mknod, and os.WriteFile of an empty file when that fails for another
+   reason than EEXIST: fix bfd5027) *)
 Definition host_after (h : st) (o : op) : st :=
   match o with
   | Mknod p _ _ =>
-      if is_failure (snd (host_call h o)) then fst (host_call h (WriteFile p [] 0%N))
+      if mknod_fallback (snd (host_call h o)) then fst (host_call h (WriteFile p [] 0%N))
       else fst (host_call h o)
   | _ => fst (host_call h o)
   end.
@@ -152,7 +153,7 @@ Proof.
   - right. rewrite (host_first_step d o HF). unfold host_after.
     destruct o; cbn [host_first] in HF; try discriminate;
       try (eexists; split; [apply incl_refl | reflexivity]).
-    destruct (is_failure (snd (host_call (d_host d) (Mknod p perm dev)))).
+    destruct (mknod_fallback (snd (host_call (d_host d) (Mknod p perm dev)))).
     + exists (WriteFile p [] 0%N). split; [apply incl_refl | reflexivity].
     + eexists; split; [apply incl_refl | reflexivity].
   - destruct (tree_first o) eqn:TF.
